@@ -43,11 +43,13 @@ SIG_POSKW = 'C16:posonly-passed-by-keyword-accepted'
 SIG_SHADOW = 'C16:kwonly-shadows-_call_/_func_'
 SIG_LAMBDA = 'C16:lambda-renamed'
 SIG_FUNC = 'C16:keyword-named-func'
+SIG_MARKER = 'C16:posonly-marker-lost'
+SIG_NONFUNC = 'C16:non-function-callable-refused'
 
 
 # signatures of recorded findings (their witnesses must not stop the exploration early); SIG_FUNC was repaired in
 # /repo 85bde09 and is an ordinary failure class
-KNOWN_SHAPES = (SIG_CLASH, SIG_POSKW, SIG_SHADOW, SIG_LAMBDA)
+KNOWN_SHAPES = (SIG_CLASH, SIG_POSKW, SIG_SHADOW, SIG_LAMBDA, SIG_MARKER, SIG_NONFUNC)
 
 
 def report(ctx, sig, what, case):
@@ -335,18 +337,20 @@ def metadata_diffs(orig, w, spec_posonly):
     for k, v in orig.__dict__.items():
         if k not in ('__wrapped__', '__source__') and w.__dict__.get(k, None) is not v:
             out.append(('C16:metadata', 'function attribute %r lost' % k))
-    # the generated def itself (not following __wrapped__): same names, order, defaults, annotations, kinds
+    # the wrapper's OWN signature (not following __wrapped__, which would make the comparison trivially true) against the
+    # original's own signature, nothing normalised
     try:
         raw = inspect.signature(w, follow_wrapped=False)
-        po = list(so.parameters.values())
-        pw = list(raw.parameters.values())
-        if [p.name for p in po] != [p.name for p in pw]:
-            out.append(('C16:metadata', 'generated def declares %s' % raw))
-        else:
-            for a, b in zip(po, pw):
-                ka = inspect.Parameter.POSITIONAL_OR_KEYWORD if a.kind == inspect.Parameter.POSITIONAL_ONLY else a.kind
-                if ka != b.kind or a.default is not b.default or a.annotation != b.annotation:
-                    out.append(('C16:metadata', 'generated def parameter %s differs from %s' % (b, a)))
+        own = inspect.signature(orig, follow_wrapped=False)
+        if raw != own:
+            po = list(own.parameters.values())
+            pw = list(raw.parameters.values())
+            only_marker = (len(po) == len(pw) and raw.return_annotation == own.return_annotation and all(
+                a.name == b.name and a.default is b.default and a.annotation == b.annotation and
+                (a.kind == b.kind or (a.kind == inspect.Parameter.POSITIONAL_ONLY and b.kind == inspect.Parameter.POSITIONAL_OR_KEYWORD))
+                for a, b in zip(po, pw)))
+            out.append((SIG_MARKER if only_marker else 'C16:metadata',
+                        'signature of the wrapper itself is %s, the original\'s is %s' % (raw, own)))
     except (TypeError, ValueError) as e:
         out.append(('C16:metadata', 'inspect.signature(follow_wrapped=False) failed: %s' % e))
     return out
@@ -751,17 +755,25 @@ def expected_bookkeeping(runner):
     """from the event log alone: per metric the durations each timed call must observe (its own entry / exit readings),
     in-progress values seen by bodies, exception-counter increments"""
     ev = runner.events
+    prior = runner.case.get('prior', {})
+    # in-progress gauges in IEEE doubles: every tracker entered adds 1.0, every tracker left subtracts 1.0, in nesting order
+    sim = {g: float(prior.get(g, 0)) for g in ('P0', 'P1')}
     durations = {k: [] for k in OBS_KEYS + ['G0', 'G1']}   # in callback order
     counts = {k: 0 for k in CNT_KEYS}
     problems = []
-    prior = runner.case.get('prior', {})
     for i, e in enumerate(ev):
         if e[0] == 'enter':
+            for w in runner.nodes[e[1]].call['ws']:
+                if w['t'] == 'I':
+                    sim[w['g']] = sim[w['g']] + 1.0
             for g in ('P0', 'P1'):
-                want = prior.get(g, 0) + e[2].get(g, 0)
-                if e[3][g] != want:
-                    problems.append(('C16:inprogress', 'in-progress gauge %s is %s inside body %d, expected %s' % (g, e[3][g], e[1], want)))
+                if e[3][g] != sim[g]:
+                    problems.append(('C16:inprogress', 'in-progress gauge %s is %r inside body %d, %d trackers active over prior %r give %r' % (
+                        g, e[3][g], e[1], e[2].get(g, 0), prior.get(g, 0), sim[g])))
         if e[0] == 'exit':
+            for w in runner.nodes[e[1]].call['ws']:
+                if w['t'] == 'I':
+                    sim[w['g']] = sim[w['g']] - 1.0
             node = runner.nodes[e[1]]
             timers = [w for w in node.call['ws'] if w['t'] == 'T']
             k = len(timers)
@@ -789,7 +801,21 @@ def expected_bookkeeping(runner):
                         cl = (Exception,) if w['cls'] == 'default' else tuple(PYCLS[x] for x in w['cls'])
                         if isinstance(e[2], cl):
                             counts[w['c']] += 1
-    return durations, counts, problems
+    return durations, counts, problems, sim
+
+
+def exact_unit(x):
+    """is (x + 1) - 1 == x in doubles"""
+    return (x + 1.0) - 1.0 == x
+
+
+FLOAT_PRIORS = [0.1, -0.3, 2.5, 1e-9, 0.30000000000000004, float(2 ** 53), float(2 ** 53 - 1), float(2 ** 53 + 2), -float(2 ** 53),
+                1e16, 4503599627370496.5, 1e300, -1e17]
+
+
+def model_prior(x):
+    """the model computes in Int: gauges whose prior is not a small integer are sent as 0 and not compared"""
+    return int(x) if float(x).is_integer() and abs(x) < 2 ** 52 else None
 
 
 def run_exec_case(ctx, case, reqs, pend):
@@ -802,7 +828,7 @@ def run_exec_case(ctx, case, reqs, pend):
     if (got[0] == 'r') != (exp[0] == 'r') or got[1] is not want:
         fails.append(('C16:outcome', 'call %s %r, the body %s %r' % ('returned' if got[0] == 'r' else 'raised', got[1],
                                                                   'returns' if exp[0] == 'r' else 'raises', want)))
-    durations, counts, probs = expected_bookkeeping(runner)
+    durations, counts, probs, sim = expected_bookkeeping(runner)
     fails += probs
     obs = {}
     for k in OBS_KEYS:
@@ -824,8 +850,15 @@ def run_exec_case(ctx, case, reqs, pend):
         elif after[k] != before[k]:
             fails.append(('C16:duration', 'timing gauge %s changed without a timed call' % k))
     for k in ('P0', 'P1'):
-        if after[k] != before[k]:
-            fails.append(('C16:inprogress', 'in-progress gauge %s was %s before the call and is %s after it' % (k, before[k], after[k])))
+        # balanced: back at the prior value — exactly, unless adding and removing 1.0 is itself inexact in doubles at this
+        # magnitude (0.1 + 1 - 1, 2**53 + 1 - 1): then the value must be the IEEE result of the +1.0 / -1.0 sequence
+        if after[k] != sim[k]:
+            fails.append(('C16:inprogress', 'in-progress gauge %s was %r before the call and is %r after it (IEEE +1/-1 sequence gives %r)' % (
+                k, before[k], after[k], sim[k])))
+        if sim[k] != before[k]:
+            ctx.count('exec:inprogress-ieee-rounding-deviation')
+        elif not exact_unit(before[k]):
+            ctx.count('exec:inprogress-inexact-prior-balanced')
     for k in CNT_KEYS:
         if after[k] - before[k] != counts[k]:
             fails.append(('C16:exception-count', 'counter %s went up by %s, %d configured exceptions escaped' % (k, after[k] - before[k], counts[k])))
@@ -840,7 +873,7 @@ def run_exec_case(ctx, case, reqs, pend):
     ctx.count('exec:depth-recursion', 1 if 'R' in toks else 0)
     prior = case.get('prior', {})
     reqs.append('c16 exec %s %s %s %d %d' % (tree_s, lib.enc_list([str(x) for x in case['clock']]),
-                                             lib.enc_list([str(prior.get(g, 0)) for g in GAUGE_KEYS]), len(CNT_KEYS), len(OBS_KEYS)))
+                                             lib.enc_list([str(model_prior(prior.get(g, 0)) or 0) for g in GAUGE_KEYS]), len(CNT_KEYS), len(OBS_KEYS)))
     pend.append(('exec', case, got, obs, after, before, exp, durations, counts, runner.uses_shared))
 
 
@@ -874,6 +907,8 @@ def compare_exec(ctx, item, reply):
             ctx.diverge('%s: model count/sum +%s, implementation +%s' % (k, mobs[k], list(obs[k])), case)
     mg = [int(x) for x in lib_declist(rep[3])]
     for i, k in enumerate(GAUGE_KEYS):
+        if model_prior(case.get('prior', {}).get(k, 0)) is None:
+            continue    # non-integer / huge prior: outside the model's exact arithmetic, judged by the oracle only
         if mg[i] != after[k]:
             ctx.diverge('gauge %s: model %s, implementation %s' % (k, mg[i], after[k]), case)
     mc = [int(x) for x in lib_declist(rep[4])]
@@ -972,6 +1007,10 @@ def corpus_exec():
         {'tree': CALL([I('P1', 'cm'), I('P1')], rec(4, ['x', 1, 'GeneratorExit'])), 'clock': [], 'prior': {'P1': -2}},
         {'tree': CALL([I('P0', 'cmnew')], nest([CALL([I('P0')], out(['x', 1, 'ValueError'])), CALL([I('P0')], out(['r', 2]))], ['r', 3], True)),
          'clock': [], 'prior': {'P0': 7}},
+        # priors where +1/-1 is inexact in doubles: 0.1 -> 0.10000000000000009, 2**53 -> 2**53 - 1
+        {'tree': CALL([I('P0', 'cm')], out(['r', 1])), 'clock': [], 'prior': {'P0': 0.1}},
+        {'tree': CALL([I('P0'), I('P0', 'cmnew')], rec(2, ['x', 1, 'SystemExit'])), 'clock': [], 'prior': {'P0': float(2 ** 53), 'P1': 2.5}},
+        {'tree': CALL([I('P1')], nest([CALL([I('P1')], out(['x', 2, 'KeyError']))], ['r', 1], True)), 'clock': [], 'prior': {'P1': -0.3}},
         # exception counting: default Exception does not count KeyboardInterrupt; tuples; subclass test
         {'tree': CALL([E('K0')], out(['x', 1, 'KeyboardInterrupt'])), 'clock': []},
         {'tree': CALL([E('K0')], out(['x', 1, 'KeyError'])), 'clock': [], 'prior': {'K0': 4}},
@@ -1007,6 +1046,57 @@ def run_batch(ctx, cases):
             compare_exec(ctx, item, reply)
 
 
+class _CallableInstance:
+    def __call__(self, x):
+        return x
+
+    def method(self, x):
+        return x
+
+
+def non_function_callables():
+    import functools
+
+    def plain(x):
+        return x
+    inst = _CallableInstance()
+    return [('function', plain), ('instance', inst), ('partial', functools.partial(plain)), ('builtin', len),
+            ('boundmethod', inst.method), ('class', _CallableInstance), ('staticmethod', staticmethod(plain))]
+
+
+def run_non_function_cases(ctx):
+    """the property says "any synchronous callable": every kind of callable under each of the three wrappers.  Oracle: the
+    wrapper is created and a call returns what the callable returns.  Refusals are reported (C16:non-function-callable-refused)."""
+    reqs, pend = [], []
+    for wkind in ('time-summary', 'count-default', 'inprogress'):
+        for kind, _ in non_function_callables():
+            world = World({})
+            target = dict(non_function_callables())[kind]
+            case = {'kind': 'nonfunc', 'callable': kind, 'wrapper': wkind}
+            arg = [1, 2, 3]
+            try:
+                direct = len(arg) if kind == 'builtin' else None
+                w = make_wrapper(world, wkind)(target)
+                real = 'ok'
+            except Exception as e:
+                real = type(e).__name__
+                report(ctx, SIG_NONFUNC, '%s()(<%s>) raised %s: %s' % (wkind, kind, real, str(e)[:80]), case)
+            else:
+                if kind == 'function' and w(arg) is not arg:
+                    report(ctx, 'C16:outcome', 'wrapped plain function does not return its argument', case)
+            ctx.case(nontrivial_key=('nonfunc', kind, wkind), sample={'callable': kind, 'wrapper': wkind, 'decorating': real})
+            ctx.count('callable-kind:%s:%s' % (kind, real))
+            reqs.append('c16 deco ' + kind)
+            pend.append((case, real))
+    replies = ctx.driver.run(reqs)
+    if replies is None:
+        return
+    for (case, real), rep in zip(pend, replies):
+        ctx.traces += 1
+        if rep != 'ok ' + real:
+            ctx.diverge('decorating a %s: model %s, implementation %s' % (case['callable'], rep, real), case)
+
+
 def labelled_parent_note(ctx):
     """`time()` on a labelled parent is not rejected at creation (Timer.labels() exists for late labelling): the decorated
     call then fails inside __exit__.  Outside the statement ("on a metric or a labelled child"); recorded, not judged."""
@@ -1017,15 +1107,6 @@ def labelled_parent_note(ctx):
         ctx.extra['time_on_labelled_parent'] = 'call returned'
     except ValueError as e:
         ctx.extra['time_on_labelled_parent'] = 'decorated call raises ValueError(%s) from Timer.__exit__ instead of returning' % e
-    rejected = []
-    import functools
-    for label, mk in (('bound method', lambda: Obj(0).__repr__), ('functools.partial', lambda: functools.partial(len, [])),
-                      ('builtin', lambda: len), ('staticmethod object', lambda: staticmethod(len)), ('class', lambda: int)):
-        try:
-            Summary('np', 'd', registry=None).time()(mk())
-        except Exception as e:
-            rejected.append('%s: %s' % (label, type(e).__name__))
-    ctx.extra['non_function_callables_rejected_at_decoration'] = rejected
 
 
 def run(ctx):
@@ -1044,12 +1125,15 @@ def run(ctx):
         n_exec *= 2
         n_sig *= 2
     labelled_parent_note(ctx)
+    run_non_function_cases(ctx)
     run_batch(ctx, corpus_exec() + corpus_sig())
     cases = []
     for i in range(n_exec):
         ids = [0]
         tree = gen_call(rng, 0, ids, shared_ok=(i % 10 == 0), maxrec=4 if quick or i % 7 else 40)
         prior = {k: rng.randint(-3, 9) for k in GAUGE_KEYS}
+        if i % 4 == 1:
+            prior.update({k: rng.choice(FLOAT_PRIORS) for k in ('P0', 'P1') if rng.random() < 0.8})
         prior.update({k: rng.randint(0, 5) for k in CNT_KEYS})
         prior.update({k: rng.randint(0, 2) for k in OBS_KEYS})
         cases.append({'kind': 'exec', 'tree': tree, 'clock': gen_clock(rng, 2 * n_timers(tree) + 1), 'prior': prior})
@@ -1067,6 +1151,12 @@ def run(ctx):
 def replay(ctx, case):
     c = case.get('case', case)
     print('REPLAY case:', json.dumps(c)[:2000])
+    if c['kind'] == 'nonfunc':
+        run_non_function_cases(ctx)
+        ctx.failures = [f for f in ctx.failures if f['case'] == c]
+        for f in ctx.failures:
+            print('REPLAY-FAIL', f['sig'], f['what'])
+        return 1 if ctx.failures else 0
     if c['kind'] == 'sig':
         print('  generated:', spec_source(c['spec'])[0].split('\n')[0], ' wrapper:', c['wrapper'])
     else:
